@@ -26,7 +26,7 @@ VARIABLES l, nbad, cur, cnt, per
 
 NoCase == [op |-> "none"]
 \* operators whose trailing outputs are optional: the harness may request fewer
-OptionalTrailingOutputs == {"Dropout"}
+OptionalTrailingOutputs == {"Dropout", "DynamicQuantizeLinear"}
 Counters == [cases |-> 0, judged |-> 0, undefined |-> 0, unmodelled |-> 0, err |-> 0, panic_unjudged |-> 0]
 \* per-operator counters (domain bounded by the number of operators: O(1) state)
 PerZero == [judged |-> 0, undefined |-> 0, unmodelled |-> 0, err |-> 0]
